@@ -19,7 +19,12 @@ TRUSTED = [
     "AccessoryDriver.get_characteristics / set_characteristics resolution), tied by this differential run",
     "objects are modelled as opaque identities allocated fresh; sharing one characteristic object between "
     "services, adding the same service twice, or adding characteristics to a service after add_service is "
-    "documented misuse and out of scope; custom IIDManager subclasses are out of scope",
+    "documented misuse and out of scope",
+    "application IIDManager subclasses (get_iid_for_obj overridden: services known by unique_id keep a recorded iid, "
+    "the rest is numbered automatically; recorded iids distinct, at or below the counter the application starts at, or "
+    "far above it) are a configuration dimension of 25% of the random histories and two boundary histories: judged by "
+    "the oracle on the real code; the database model has stock managers only, the manager-level model with explicit "
+    "iids (Iid.assignAt, theorem C17_custom_manager) is tied by the manager-script stream",
     "histories interleave construction with observations (polls: GET /accessories, one multi-id GET /characteristics "
     "re-polling every earlier path, a few PUTs); removal = IIDManager.remove_obj/remove_iid and bridge.accessories.pop, "
     "re-adding = IIDManager.assign of a removed object (the object stays in its service; detaching a Service object from "
@@ -47,10 +52,13 @@ def extract(ctx: Ctx):
 class Run:
     """Executes a construction history on the real code, judging it with the property oracle."""
 
-    def __init__(self, ctx: Optional[Ctx], bridge: bool, main: List[dict], main_aid: Optional[int], main_early=None):
+    def __init__(self, ctx: Optional[Ctx], bridge: bool, main: List[dict], main_aid: Optional[int], main_early=None,
+                 main_manager: Optional[dict] = None):
         self.ctx = ctx
         self.h = {"bridge": bridge, "mainAid": main_aid, "main": main, "mainEarly": list(main_early or []), "ops": []}
-        self.rig = dbrig.Rig(bridge, main, main_aid, main_early)
+        if main_manager is not None:
+            self.h["mainManager"] = main_manager
+        self.rig = dbrig.Rig(bridge, main, main_aid, main_early, main_manager)
         #: characteristics that have already published an event (construction-time or mid-history)
         self.hot: List[Any] = list(self.rig.early_objs)
         self.results: List[dict] = []
@@ -121,7 +129,7 @@ class Run:
             if not rig.is_bridge:
                 return {"err": "badTarget"}
             bridge = rig.top
-            acc = rig.new_accessory(op["aid"], op["specs"], op.get("catBridge", False))
+            acc = rig.new_accessory(op["aid"], op["specs"], op.get("catBridge", False), op.get("manager"))
             # value changes while the accessory is set up, before the bridge knows it (and gives it an aid)
             early = dbrig.early_changes(acc, op.get("early") or [])
             before = list(bridge.accessories.items())
@@ -756,9 +764,9 @@ class ConstructionRaised(Exception):
     """pyhap raised while the top-level accessory was being built from shipped services."""
 
 
-def new_run(ctx, bridge, main, main_aid, main_early=None) -> "Run":
+def new_run(ctx, bridge, main, main_aid, main_early=None, main_manager=None) -> "Run":
     try:
-        return Run(ctx, bridge, main, main_aid, main_early)
+        return Run(ctx, bridge, main, main_aid, main_early, main_manager)
     except Exception as ex:  # noqa: BLE001
         if not dbrig.from_pyhap(ex):
             raise
@@ -766,7 +774,7 @@ def new_run(ctx, bridge, main, main_aid, main_early=None) -> "Run":
 
 
 def replay_history(h: dict, ctx: Optional[Ctx] = None):
-    run = new_run(ctx, h["bridge"], h["main"], h.get("mainAid", 1), h.get("mainEarly"))
+    run = new_run(ctx, h["bridge"], h["main"], h.get("mainAid", 1), h.get("mainEarly"), h.get("mainManager"))
     try:
         if h.get("probes") is not None:
             run.h["probes"] = h["probes"]
@@ -880,9 +888,37 @@ def boundary_histories(pool) -> List[dict]:
         }
     )
     hs.append({"bridge": False, "mainAid": None, "main": [lb], "ops": [poll(), {"op": "removeIid", "aid": 1, "iid": 9}, {"op": "assign", "aid": 1, "obj": 8}, poll()]})
+    # application IIDManager subclasses (get_iid_for_obj overridden): recorded iids below the counter the
+    # application starts at, equal to it, and far above; mixed with automatic ones; removal and re-assignment
+    mgr = {"start": 30, "recorded": {"lamp": 20, "fan": 30, "far": 5003}}
+    lamp = {"svc": "Lightbulb", "opt": ["Brightness"], "uid": "lamp"}
+    fan = {"svc": "Fan", "opt": [], "uid": "fan"}
+    far = {"svc": "Outlet", "opt": [], "uid": "far"}
+    temp = {"svc": "TemperatureSensor", "opt": []}
+    hs.append({"bridge": False, "mainAid": 1, "mainManager": mgr, "main": [lamp, fan, temp, sw],
+               "ops": [poll(), {"op": "addService", "aid": 1, "spec": far}, {"op": "addService", "aid": 1, "spec": lb}, poll()]})
+    hs.append({"bridge": True, "mainManager": {"start": 12, "recorded": {"lamp": 12}}, "main": [lamp],
+               "ops": [{**auto([dict(fan), dict(temp)]), "manager": mgr}, {**auto([dict(lamp), dict(far), dict(sw)]), "manager": mgr}, poll(),
+                       {"op": "addService", "aid": 2, "spec": dict(lamp)}, {"op": "addService", "aid": 3, "spec": dict(temp)},
+                       {"op": "removeObj", "aid": 1, "obj": 9}, {"op": "assign", "aid": 1, "obj": 9}, poll(),
+                       {"op": "addService", "aid": 1, "spec": dict(sw)}, poll()]})
     for h in hs:
         h.setdefault("mainAid", 1)
     return hs
+
+
+def gen_manager(rng) -> dict:
+    """A well-behaved application policy for a custom IIDManager: distinct recorded iids, the low ones at
+    or below the value the application starts the automatic counter at (so automatic iids, all above it,
+    never meet them), the high ones far beyond anything a history reaches."""
+    lows = rng.sample(range(2, 40), rng.choice([1, 2, 3]))
+    highs = [5000 + k for k in rng.sample(range(50), rng.choice([0, 1, 2]))]
+    start = max(lows) + rng.choice([0, 0, 1, 6])
+    return {"start": start, "recorded": {f"u{i}": v for i, v in enumerate(lows + highs)}}
+
+
+def uses_custom(h: dict) -> bool:
+    return h.get("mainManager") is not None or any(o.get("manager") is not None for o in h["ops"])
 
 
 def random_history(ctx: Ctx, pool, big: bool = False):
@@ -892,7 +928,23 @@ def random_history(ctx: Ctx, pool, big: bool = False):
     main = [dbrig.random_spec(rng, pool) for _ in range(rng.choice([0, 0, 1, 2]))]
     main_aid = 1 if bridge else rng.choice([1, None])
     main_early = [rng.randrange(1000) for _ in range(rng.choice([1, 2]))] if rng.random() < 0.2 else []
-    run = new_run(ctx, bridge, main, main_aid, main_early)
+    custom = rng.random() < 0.25  # application IIDManager subclasses (explicit + automatic iids mixed)
+    uids: Dict[Any, List[str]] = {}  # accessory key -> unique_ids its manager still has a recorded iid for
+    main_manager = None
+
+    def tag(specs, free):
+        for sp in specs:
+            if free and "svc" in sp and rng.random() < 0.7:
+                sp["uid"] = free.pop(rng.randrange(len(free)))
+        return specs
+
+    if custom and rng.random() < 0.7:
+        main_manager = gen_manager(rng)
+        uids[1] = list(main_manager["recorded"])
+        if not main:
+            main = [dbrig.random_spec(rng, pool)]
+        tag(main, uids[1])
+    run = new_run(ctx, bridge, main, main_aid, main_early, main_manager)
     rig = run.rig
 
     def any_spec():
@@ -936,6 +988,12 @@ def random_history(ctx: Ctx, pool, big: bool = False):
                 aid = rng.choice(keys + [1, 7])
             specs = [any_spec() for _ in range(rng.choice([0, 0, 1, 1, 2]))]
             op = {"op": "addAccessory", "aid": aid, "specs": specs}
+            if custom and rng.random() < 0.6:
+                op["manager"] = gen_manager(rng)
+                op["_free"] = list(op["manager"]["recorded"])
+                if not specs:
+                    specs.append(dbrig.random_spec(rng, pool))
+                tag(specs, op["_free"])
             if rng.random() < 0.3:
                 # value changes while the accessory is being set up, before the bridge gives it an aid
                 op["early"] = [rng.randrange(1000) for _ in range(rng.choice([1, 2, 3]))]
@@ -949,7 +1007,8 @@ def random_history(ctx: Ctx, pool, big: bool = False):
                             "specs": [any_spec() for _ in range(rng.choice([1, 1, 2]))]},
                            {"op": "poll", "pick": [rng.randrange(1000) for _ in range(2)]}]
         elif x < 0.5:
-            op = {"op": "addService", "aid": rng.choice(keys), "spec": any_spec()}
+            key = rng.choice(keys)
+            op = {"op": "addService", "aid": key, "spec": tag([any_spec()], uids.get(key, []))[0]}
         else:
             key = rng.choice(keys)
             acc = rig.accessory(key)
@@ -965,7 +1024,12 @@ def random_history(ctx: Ctx, pool, big: bool = False):
                 op = {"op": "assign", "aid": key, "obj": rng.choice(mine)}
             else:
                 op = {"op": "assign", "aid": key, "obj": rng.choice(own)}
+        free = op.pop("_free", None)
         r = run.apply(op)
+        if free is not None and r.get("ok") is not None:
+            uids[r["ok"]] = free
+        if op["op"] == "removeAccessory":
+            uids.pop(op["aid"], None)
         if op["op"] == "removeObj" and r.get("ok") is not None:
             removed.append((op["aid"], op["obj"]))
         if op["op"] == "removeIid" and r.get("ok") is not None:
@@ -1074,6 +1138,11 @@ def run(ctx: Ctx):
                 continue
             st.hit("outcome", op["op"] + ":" + ("err-" + res["err"] if "err" in res else "ok"))
         st.hit("outcome", "listed-pairs", sum(1 for e in o.get("resolve", []) if "read" in e))
+        if uses_custom(r.h):
+            # application IIDManager subclasses: judged by the oracle on the real code; the database model has
+            # stock managers only (the manager-level model with explicit iids is tied by the c17m stream)
+            st.hit("outcome", "custom-manager-history")
+            continue
         if "fatal" in m:
             ctx.disagree("c17-history", r.h, m, "(model driver error)")
             continue
@@ -1089,7 +1158,7 @@ def run(ctx: Ctx):
                 "results": r.results[:12],
                 "aids_listed": [a["aid"] for a in (o.get("accessories") or [])],
                 "listed_pairs_probed": sum(1 for e in o.get("resolve", []) if "read" in e),
-                "model_agrees": "fatal" not in model[i] and model_view(model[i], r.char_numbers(), None) == o,
+                "model_agrees": uses_custom(r.h) or ("fatal" not in model[i] and model_view(model[i], r.char_numbers(), None) == o),
             }
         )
 
